@@ -97,6 +97,28 @@ macro_rules! wf2_body {
     }};
 }
 
+// LANG_ONLY == CLDR, quick tier: the closed boolean `LANG_ONLY == EXPECTED_LANG_ONLY_FULL` is evaluated by rustc's compile-time
+// evaluator (a `const` initialiser reading the real static) and the harness asserts the resulting constant; the thorough tier
+// re-proves the same fact with CBMC alone (the 14 chunk obligations below).
+const fn opt64_eq(a: Option<u64>, b: Option<u64>) -> bool { match (a, b) { (None, None) => true, (Some(x), Some(y)) => x == y, _ => false } }
+const fn opt32_eq(a: Option<u32>, b: Option<u32>) -> bool { match (a, b) { (None, None) => true, (Some(x), Some(y)) => x == y, _ => false } }
+const fn lang_only_rows_eq(a: &[(u64, Val)], b: &[(u64, Val)]) -> bool {
+    if a.len() != b.len() { return false; }
+    let mut i = 0;
+    while i < a.len() {
+        let (x, y) = (&a[i], &b[i]);
+        if x.0 != y.0 || !opt64_eq((x.1).0, (y.1).0) || !opt32_eq((x.1).1, (y.1).1) || !opt32_eq((x.1).2, (y.1).2) { return false; }
+        i += 1;
+    }
+    true
+}
+const LANG_ONLY_EQ_CLDR: bool = lang_only_rows_eq(&tables::LANG_ONLY, &EXPECTED_LANG_ONLY_FULL);
+#[kani::proof]
+fn lang_only_eq_cldr_ctfe() {
+    assert!(LANG_ONLY_EQ_CLDR);
+    assert!(tables::LANG_ONLY.len() == EXPECTED_LANG_ONLY_LEN);
+}
+
 // LANG_ONLY (7143 rows): two 7143-row arrays under one symbolic index exceed CBMC's reach (> 30 min), so vf/gen.py emits
 // the CLDR side in 14 chunks of 512 rows; harness k compares rows [512k, 512k+len) of the real table with chunk k under
 // a symbolic offset.  The chunk lengths add up to the table length (asserted in every harness), so every row is covered.
